@@ -72,6 +72,38 @@ def r1_clip(ctx, repo):
         ps = ps[1:]
     rets = [s for s in stmts_of(fn) if isinstance(s, ast.Return)]
     C = "Operator.clip"
+    if len(ps) == 3 and len(rets) != 1:
+        # several returns (a ladder of comparisons): a function that only compares, takes min/max of and returns its three
+        # parameters depends on their ORDER alone, and lo <= hi leaves finitely many orders - each is run through the body
+        allowed = (ast.Return, ast.If, ast.IfExp, ast.Compare, ast.Name, ast.Load, ast.Store, ast.Assign, ast.Lt, ast.LtE, ast.Gt, ast.GtE, ast.Eq, ast.NotEq,
+                   ast.BoolOp, ast.And, ast.Or, ast.UnaryOp, ast.Not, ast.Call, ast.Pass, ast.Expr, ast.Constant)
+        body_nodes = [n for st in fn.body for n in ast.walk(st)]
+        pure_order = all(isinstance(n, allowed) for n in body_nodes) and all(access_path(n.func) in ("min", "max") for n in body_nodes if isinstance(n, ast.Call)) \
+            and not any(isinstance(n, ast.Constant) and not isinstance(n.value, str) for n in body_nodes)
+        if pure_order:
+            from ..ivlinterp import Interp as _IvI, Unsupported as _Un
+            from ..ivl import DomainError as _DE
+            cases = [(v_, 1.0, 3.0) for v_ in (0.0, 1.0, 2.0, 3.0, 4.0)] + [(v_, 2.0, 2.0) for v_ in (1.0, 2.0, 3.0)]
+            bad = None
+            try:
+                for v_, lo_, hi_ in cases:
+                    it = _IvI()
+                    it.concrete_lib = True
+                    kind_ = "static" if any(isinstance(d, ast.Name) and d.id == "staticmethod" for d in fn.decorator_list) else "inst"
+                    args_ = [v_, lo_, hi_]
+                    r_ = it.call_function(fn, args_ if kind_ == "static" else [None] + args_)
+                    want_ = min(max(v_, lo_), hi_)
+                    if not isinstance(r_, (int, float)) or r_ != want_:
+                        bad = bad or "with (value, lower, upper) ordered like (%g, %g, %g) clip returns %r, the value clipped into [lower, upper] is %g%s" % (
+                            v_, lo_, hi_, r_, want_, ": the result is outside the bounds" if not (isinstance(r_, (int, float)) and lo_ <= r_ <= hi_) else "")
+            except (_Un, _DE, TypeError, IndexError) as e_:
+                ctx.inconclusive("R1", C, where(cls.module, fn), "comparison ladder not evaluable: %s" % e_)
+                return None
+            if bad:
+                ctx.violated("R1", C, where(cls.module, fn), bad)
+                return None
+            ctx.holds("R1", C, where(cls.module, fn), "a ladder of comparisons over (value, lower, upper): all %d orders with lower <= upper give the value clipped into [lower, upper]" % len(cases))
+            return ps
     if len(ps) != 3 or len(rets) != 1:
         ctx.inconclusive("R1", C, where(cls.module, fn), "unexpected shape")
         return None
